@@ -100,6 +100,8 @@ func classOwnersVia(op string, app []string, via string, missing bool) string {
 	return keys(set)
 }
 
+type ctxKey struct{}
+
 type Runner struct {
 	Prop  string // the property under check ("" = stop at the first divergence whoever owns it)
 	blind bool   // a divergence owned by another property happened: keep executing, compare nothing against the model any more
@@ -235,7 +237,13 @@ func (r *Runner) exec(ctx boltz.MutateContext, s *Step, salt int) (ret string, e
 	if a["osys"] == true {
 		// the call is made with a system context derived from the transaction's context; the transaction's own
 		// context must keep its privileges (or lack of them) for the calls that follow
-		ctx = ctx.GetSystemContext()
+		sctx := ctx.GetSystemContext()
+		if salt%2 == 0 {
+			// an application attaches a value to the context of the call it is about to make (the returned context is not used):
+			// this must not change what the transaction's own context may do
+			sctx.UpdateContext(func(c context.Context) context.Context { return context.WithValue(c, ctxKey{}, salt) })
+		}
+		ctx = sctx
 	}
 	switch s.op() {
 	case "create":
